@@ -1,5 +1,6 @@
 import Abasic.Exec.Codec
 import Abasic.Ref.Expr
+import Abasic.Front
 /-
   Line-protocol driver: one operation per input line, one reply line per
   operation (DESIGN.md 3.2).  Payloads are hex-encoded UTF-8.
@@ -42,6 +43,44 @@ def parseExpr : Nat → List String → Option (Ref.Expr Float × List String)
     else if tag == "a" then (parseExpr fuel rest).map fun (e, r) => (.abs e, r)
     else if tag == "i" then (parseExpr fuel rest).map fun (e, r) => (.int e, r)
     else none
+
+def tokenTypeName : TokenType → String
+  | .Symbol => "Symbol" | .String => "String" | .Number => "Number" | .Operator => "Operator"
+  | .Comment => "Comment" | .Keyword => "Keyword" | .Delimiter => "Delimiter" | .Data => "Data"
+
+def encMapped : Option (Option (Nat × Nat × Nat)) → String
+  | none => "PANIC"
+  | some none => "-"
+  | some (some (f, a, b)) => s!"{f}:{a}-{b}"
+
+def encDiag (m : FileMap) (d : Diag) : String :=
+  match d with
+  | .warning f loc msg =>
+    let l := match loc with | some (n, i) => s!"{n}:{i}" | none => "-"
+    s!"W:{f}:{l}:{hexOfStr msg}>{encMapped (m.mapDiag d)}"
+  | .error f e => s!"E:{f}:{encErr e}>{encMapped (m.mapDiag d)}"
+
+def encAnalysis (a : Analysis Float) : String :=
+  match a.panicked with
+  | some site => "PANIC:" ++ site.replace " " "_"
+  | none =>
+    let toks := "|".intercalate (a.lineTokens.map fun lt =>
+      ",".intercalate (lt.map fun (tt, x, y) => s!"{tokenTypeName tt}@{x}-{y}"))
+    let msgs := " ".intercalate (sortStrings (a.messages.map (encDiag a.map)))
+    s!"T {toks} ; M {msgs}"
+
+def encLsp (a : Analysis Float) : String :=
+  match a.panicked with
+  | some site => "PANIC:" ++ site.replace " " "_"
+  | none =>
+    let d := match lspDiagnostics a with
+      | none => "PANIC"
+      | some ds => " ".intercalate (sortStrings (ds.map fun (x : LspDiag) =>
+          s!"{x.line}:{x.startCol}-{x.endCol}:{if x.isError then "E" else "W"}:{hexOfStr x.text}"))
+    let t := match semanticTokens a with
+      | none => "PANIC"
+      | some ts => " ".intercalate (ts.map fun (x : SemTok) => s!"{x.deltaLine},{x.deltaStart},{x.length},{x.tokenType}")
+    s!"D {d} ; S {t}"
 
 structure Session where
   st : St Float := {}
@@ -92,6 +131,25 @@ def step (sess : Session) (line : String) : Session × String :=
          | .error err => "e:" ++ encErrKind err
        (sess, hexOfStr e.text ++ " " ++ res)
      | _ => (sess, "bad-expr"))
+  | ["analyze", h] =>
+    (match unhex h with
+     | some text => (sess, encAnalysis (analyzeText sess.fuel text))
+     | none => (sess, "bad-utf8"))
+  | ["analyze"] => (sess, encAnalysis (analyzeText sess.fuel []))
+  | ["lsp", h] =>
+    (match unhex h with
+     | some text => (sess, encLsp (lspAnalyze sess.fuel text))
+     | none => (sess, "bad-utf8"))
+  | ["lsp"] => (sess, encLsp (lspAnalyze sess.fuel []))
+  | ["load", h] =>
+    -- SourceFileAnalyzer::analyze(text).into_interpreter(): replaces the interpreter
+    (match unhex h with
+     | some text =>
+       let a := analyzeText (F := Float) sess.fuel text
+       (match a.panicked with
+        | some site => (sess, "PANIC:" ++ site.replace " " "_")
+        | none => ({ sess with st := a.intoInterpreter, lastErr := none }, "ok"))
+     | none => (sess, "bad-utf8"))
   | ["state"] => (sess, encState sess.st.state)
   | ["reads"] => (sess, toString sess.st.reads)
   | ["nesting"] => (sess, toString sess.st.nesting)
